@@ -14,7 +14,8 @@ for e in f["findings"]:
     subprocess.run("git -C /repo worktree remove --force %s" % wt, shell=True, capture_output=True)
     os.makedirs("/tmp/mt", exist_ok=True)
     subprocess.run("git -C /repo worktree add -q %s HEAD" % wt, shell=True, check=True)
-    r = subprocess.run("git -C %s revert --no-commit %s" % (wt, e["commit"]), shell=True, capture_output=True, text=True)
+    # later fixes that touch the same lines are reverted first (listed in 'revert_with')
+    r = subprocess.run("git -C %s revert --no-commit %s" % (wt, " ".join(e.get("revert_with", []) + [e["commit"]])), shell=True, capture_output=True, text=True)
     if r.returncode != 0:
         res.append((e["id"], "revert-conflict", r.stderr[-200:].strip()))
         subprocess.run("git -C /repo worktree remove --force %s" % wt, shell=True, capture_output=True)
